@@ -66,6 +66,7 @@ PIPELINES = [
      ["validation", {"validation_method": "cross_checking_accurate"}],
      ["validation.2", {"validation_method": "cross_checking_accurate", "interpolated_disparity": "mc-cnn"}]],
     [["matching_cost", {"matching_cost_method": "sad", "window_size": 3}],
+     ["cost_volume_confidence.amb", {"confidence_method": "ambiguity"}],
      ["disparity", {"disparity_method": "wta"}],
      ["filter", {"filter_method": "median"}],
      ["multiscale", {"multiscale_method": "fixed_zoom_pyramid", "num_scales": 2}],
@@ -148,7 +149,8 @@ def run_case(pipe_idx: int, pair_seed: int, machine=None, do_check=True, checked
             pre["m"] = machine_.left_disparity["validity_mask"].data.copy()
 
     with drive.Spy(before=before):
-        lo, ro = drive.run_checked(m, l, r, copy.deepcopy(checked))
+        # the caller keeps ONE checked configuration and hands the same object to every run
+        lo, ro = drive.run_checked(m, l, r, checked)
     full = product_hash(lo, ro)
     flags = pre.get("m", lo["validity_mask"].data)
     hd = hashlib.sha256(np.ascontiguousarray(lo["disparity_map"].data).tobytes()).hexdigest()
@@ -165,7 +167,7 @@ def run_case(pipe_idx: int, pair_seed: int, machine=None, do_check=True, checked
 def pristine_hash(pidx: int, pseed: int) -> str:
     root = os.path.join(env.VERIF_DIR, ".work", "c18ref", env.tree_hash() + "-" + os.environ.get("PANDORA_NUMBA_PARALLEL", "True"))
     os.makedirs(root, exist_ok=True)
-    path = os.path.join(root, f"{pidx}-{pseed}.json")
+    path = os.path.join(root, f"{pidx}-{pseed}-{digest(PIPELINES[pidx])[:10]}.json")
     if not os.path.exists(path):
         cases = path + f".{os.getpid()}.cases"
         out = path + f".{os.getpid()}.out"
